@@ -218,6 +218,41 @@ impl<'r> Gen<'r> {
                 }
                 it
             }
+            Ty::Flag => {
+                let form = if self.mistake(self.cfg.allow.bad_value, 15) {
+                    match self.rng.below(3) {
+                        0 => Form::NV(Value::Bool(true)),
+                        1 => Form::List(vec![]),
+                        _ => Form::NV(Value::Str("yes".into())),
+                    }
+                } else {
+                    Form::Word
+                };
+                self.item(name, form)
+            }
+            Ty::PathList => {
+                if self.mistake(self.cfg.allow.bad_value, 8) {
+                    let f = if self.rng.pct(50) { Form::Word } else { Form::NV(Value::Str("a, b".into())) };
+                    return self.item(name, f);
+                }
+                let n = self.rng.below(4);
+                let mut v = Vec::new();
+                for i in 0..n {
+                    let nm = ["a", "b::c", "::d", "e"][i % 4];
+                    if self.mistake(self.cfg.allow.bad_value, 8) {
+                        if self.rng.pct(50) {
+                            v.push(Nested::Lit { text: "\"lit\"".into(), range: ZERO });
+                        } else {
+                            let it = self.item(nm, Form::NV(Value::Int("1".into())));
+                            v.push(Nested::Item(it));
+                        }
+                    } else {
+                        let it = self.item(nm, Form::Word);
+                        v.push(Nested::Item(it));
+                    }
+                }
+                self.item(name, Form::List(v))
+            }
             Ty::Any(_) => {
                 let form = self.wild_form(depth);
                 self.item(name, form)
@@ -545,8 +580,8 @@ impl<'r> Gen<'r> {
     }
 }
 
-pub const META_RECEIVERS: [&str; 29] = [
-    "S1", "S2", "S3", "S4", "S5", "S6", "S7", "S8", "S9", "S10", "S11", "S12", "N1", "N2", "Rec", "F1", "F2", "F3", "F4", "U1", "NT1", "NT2", "W1", "E1",
+pub const META_RECEIVERS: [&str; 30] = [
+    "S1", "S2", "S3", "S4", "S5", "S6", "S7", "S8", "S9", "S10", "S11", "S12", "S13", "N1", "N2", "Rec", "F1", "F2", "F3", "F4", "U1", "NT1", "NT2", "W1", "E1",
     "E2", "E3", "EH", "WR", "MP",
 ];
 
@@ -555,10 +590,12 @@ pub fn receiver_names(mode: &str) -> Vec<&'static str> {
         vec!["MP", "F3", "RHS", "RHS", "RHI", "RHP", "RHN", "RHH", "RHB", "RHU", "RBS", "RBI", "RBN"]
     } else if mode == "wild" {
         let mut v = META_RECEIVERS.to_vec();
-        v.extend(["L1", "L2", "L3", "L1", "L2", "L3"]);
+        v.extend(["L1", "L2", "L3", "L1", "L2", "L3", "RHS", "RBI", "RHP", "RHN", "RBH"]);
         v
     } else {
-        META_RECEIVERS.to_vec()
+        let mut v = META_RECEIVERS.to_vec();
+        v.extend(["RHS", "RBI", "RHP", "RHN", "RBH"]);
+        v
     }
 }
 
